@@ -280,11 +280,14 @@ impl Iterator for ReluctantRepeatIterator<'_> {
                     } else {
                         self.position = Some(position);
                     }
+                } else if self.min == 0 && self.counter == 0 {
+                    // the repeated term does not match here: zero
+                    // occurrences are allowed, so stay at this position
+                    self.counter += 1;
+                } else {
+                    // the repeated term does not match any more
+                    self.position = None;
                 }
-            } else if self.min == 0 && self.counter == 0 {
-                self.counter += 1;
-            } else {
-                self.position = None;
             }
             if self.counter >= self.min || self.position.is_none() {
                 break;
